@@ -26,6 +26,11 @@ def one(d):
 
 seeds = sorted(glob.glob("/verif/seeded/S*"))
 results = {}
+only = [x for x in os.environ.get("SEEDALL_ONLY", "").split(",") if x]  # re-evaluate these ids only and merge into RESULTS.json
+if only:
+    seeds = [d for d in seeds if os.path.basename(d).split("-")[0] in only]
+    prev = json.load(open("/verif/seeded/RESULTS.json"))
+    results = {k: v for k, v in prev.items() if k != "_run" and os.path.isdir("/verif/seeded/" + k)}
 with cf.ThreadPoolExecutor(jobs) as ex:
     for name, res in ex.map(one, seeds):
         results[name] = res
